@@ -491,6 +491,13 @@ def scenarios(ctx):
     for i in range(nrand):
         scs.append(_rand_scenario(rng, 2 if i % 4 else rng.choice([3, 4])))
         sc = scs[-1]
+        if sc["opts"].get("regions") is None and rng.random() < 0.25:
+            # a contig on which EVERY record is flagged unmapped but placed (RNAME/POS set, e.g. mates whose partner was filtered)
+            sc["chroms"].append({"sites": []})
+            for _ in range(rng.randint(1, 3)):
+                sc["groups"].append({"rg": rng.randint(1, len(sc["rgs"])), "bx": 0,
+                                     "alns": [{"chrom": len(sc["chroms"]) - 1, "kind": "unmp", "lo": 1, "hi": 0, "al": [], "third": [],
+                                               "rev": rng.random() < 0.5, "stale": None}]})
         if sc["opts"].get("regions") is None and not sc["opts"].get("linked") and rng.random() < 0.35:
             for ch in sc["chroms"]:
                 if len(ch["sites"]) >= 2:
